@@ -48,6 +48,20 @@ var (
 		}
 		return h
 	}()
+	c25addrFF = func() common.Address {
+		var a common.Address
+		for i := range a {
+			a[i] = 0xff
+		}
+		return a
+	}()
+	c25hashFF = func() common.Uint256 {
+		var h common.Uint256
+		for i := range h {
+			h[i] = 0xff
+		}
+		return h
+	}()
 	c25maxI128 = new(big.Int).Sub(c25pow2(127), big.NewInt(1))
 	c25minI128 = new(big.Int).Neg(c25pow2(127))
 )
@@ -90,6 +104,9 @@ func c25leaves() []c25leaf {
 		{"goint:-2^40", -(int(1) << 40)},
 		{"goint64:min", int64(-1 << 63)},
 		{"goint64:max", int64(1<<63 - 1)},
+		// all-ones values (the all-zero ones are above)
+		{"addr:ff", c25addrFF},
+		{"h256:ff", c25hashFF},
 	}
 }
 
@@ -178,6 +195,88 @@ func c25show(v interface{}) string {
 	return fmt.Sprintf("?%T", v)
 }
 
+// c25unstring: got is the DeserializeNotify form of orig; "" when every leaf text reads back to the leaf of orig,
+// otherwise the type of the first leaf that does not.
+func c25unstring(orig, got interface{}) string {
+	switch x := c25norm(orig).(type) {
+	case []byte:
+		s, ok := got.(string)
+		b, err := hex.DecodeString(s)
+		if !ok || err != nil || !bytes.Equal(b, x) {
+			return "bytes"
+		}
+	case string:
+		if s, ok := got.(string); !ok || s != x {
+			return "string"
+		}
+	case bool:
+		if b, ok := got.(bool); !ok || b != x {
+			return "bool"
+		}
+	case common.Address:
+		s, ok := got.(string)
+		a, err := common.AddressFromBase58(s)
+		if !ok || err != nil || a != x {
+			return "address"
+		}
+	case common.Uint256:
+		s, ok := got.(string)
+		h, err := common.Uint256FromHexString(s)
+		if !ok || err != nil || h != x {
+			return "h256"
+		}
+	case *big.Int:
+		s, ok := got.(string)
+		n, ok2 := new(big.Int).SetString(s, 10)
+		if !ok || !ok2 || n.Cmp(x) != 0 {
+			return "int"
+		}
+	case []interface{}:
+		l, ok := got.([]interface{})
+		if !ok || len(l) != len(x) {
+			return "list"
+		}
+		for i := range x {
+			if w := c25unstring(x[i], l[i]); w != "" {
+				return w
+			}
+		}
+	default:
+		return "other"
+	}
+	return ""
+}
+
+// c25render: complete, canonical text of a value returned by the codec (decoded values and DeserializeNotify forms)
+func c25render(v interface{}) string {
+	switch x := v.(type) {
+	case nil:
+		return "nil"
+	case []byte:
+		return "bytes(" + hex.EncodeToString(x) + ")"
+	case string:
+		return "str(" + strconv.Quote(x) + ")"
+	case bool:
+		return fmt.Sprintf("bool(%v)", x)
+	case common.Address:
+		return "addr(" + hex.EncodeToString(x[:]) + ")"
+	case common.Uint256:
+		return "h256(" + hex.EncodeToString(x[:]) + ")"
+	case *big.Int:
+		if x == nil {
+			return "int(nil)"
+		}
+		return "int(" + x.String() + ")"
+	case []interface{}:
+		p := make([]string, len(x))
+		for i, e := range x {
+			p[i] = c25render(e)
+		}
+		return "[" + strings.Join(p, ",") + "]"
+	}
+	return fmt.Sprintf("%T(%v)", v, v)
+}
+
 func c25depth(v interface{}) int {
 	l, ok := v.([]interface{})
 	if !ok {
@@ -236,6 +335,7 @@ type c25case struct {
 	Bytes   string `json:"bytes,omitempty"`
 	API     string `json:"api,omitempty"`
 	Comment string `json:"comment,omitempty"`
+	History string `json:"history,omitempty"` // unit "history" (C25_history_test.go): step names joined by " -> "
 }
 
 func c25typeClass(v interface{}) string {
@@ -295,6 +395,14 @@ func c25roundtrip(r *vh.Run, v interface{}, name string) {
 		got3, err := parseNotify(append([]byte("evt\x00"), enc...))
 		if err != nil || !c25eq(v, got3) {
 			bad("notify", "parseNotify(evt0||EncodeValue(%s)) = %s, %v", name, c25show(got3), err)
+			return
+		}
+		// the event-log form: DeserializeNotify renders every leaf as text (hex, base58, decimal); each text must
+		// read back, with the type's own parser, to the leaf that was encoded
+		got4 := DeserializeNotify(append([]byte("evt\x00"), enc...))
+		if where := c25unstring(v, got4); where != "" {
+			r.Violationf("roundtrip:notify-text:"+where+":"+tc, c25case{Value: name, API: "DeserializeNotify"},
+				"DeserializeNotify(evt0||EncodeValue(%s)) = %s: the %s text does not read back to the encoded value", name, c25render(got4), where)
 			return
 		}
 		if l, ok := v.([]interface{}); ok {
@@ -702,8 +810,8 @@ func TestVerif_C25(t *testing.T) {
 	r := vh.Start(t, "C25", "codec")
 	defer r.Finish()
 	log.InitLog(log.MaxLevelLog)
-	r.Rule("(a) every nested list up to depth 3 / width 3 over the codec's value types (one value per type, plus boundary integers +-2^127, empty values, Go int/int64 forms) " +
-		"through EncodeValue/EncodeList -> DecodeValue, DeserializeCallParam, parseNotify, compared structurally; out-of-range integers must be refused; " +
+	r.Rule("(a) every nested list up to depth 3 / width 3 over the codec's value types (one value per type, plus boundary integers +-2^127, empty, all-zero and all-ones values, Go int/int64 forms) " +
+		"through EncodeValue/EncodeList -> DecodeValue, DeserializeCallParam, parseNotify, compared structurally, and through DeserializeNotify, whose leaf texts (hex, base58, decimal) must read back to the encoded leaves with the types' own parsers; out-of-range integers must be refused; " +
 		"(b) DecodeValue on every byte string up to length L (in-process) and, in a worker under a 3 GB address-space limit, on every single-byte mutation / truncation / size-field substitution of 16 valid encodings, " +
 		"accepted values re-encoded and compared; DeserializeCallParam / DeserializeNotify on framed, wrongly framed and raw inputs must agree with DecodeValue; " +
 		"(c) claimed sizes up to 2^32-1 with short bodies with TotalAlloc measured (bound: 64 KiB + 256 B per input byte); distinct = (operation, type/shape, outcome) classes")
@@ -711,6 +819,9 @@ func TestVerif_C25(t *testing.T) {
 	r.Bound(fmt.Sprintf("lists: depth<=3, width<=3 (alphabet narrowing with depth); byte strings<=%d", maxLen))
 
 	var rc c25case
+	if r.ReplayCase(&rc) && rc.History != "" {
+		return // a case of the history unit
+	}
 	if r.ReplayCase(&rc) && rc.Bytes != "" {
 		data, _ := hex.DecodeString(strings.SplitN(rc.Bytes, "..", 2)[0])
 		a := c25newAcc(r)
